@@ -30,6 +30,14 @@ sim::Json generate(const std::string& tier, uint64_t seed, uint64_t index) {
   place_options(rng, sc, opts);
   sc.ref("script").set("solve_iters", 0);
   sc.set("has_names", go.want_names);
+  // history: the export file already exists - the complete export of an earlier run (another model), or a leftover without final newline
+  if (rng.chance(0.15)) {
+    std::string old = "{\"COMMENT\": \"STALE_EXPORT of an earlier run\"}\n{\"VAR_index\": 0, \"bounds\": [0, 7], \"type\": 0, \"is_from_nl\": 1}\n"
+                      "{\"VAR_index\": 1, \"bounds\": [0, 8], \"type\": 1, \"is_from_nl\": 1}\n{\"CON_TYPE\": \"_linle\", \"index\": 0, \"depth\": 0, \"data\": {\"body\": {\"coefs\": [1], \"vars\": [0]}, \"rhs_or_range\": [7]}}\n";
+    if (rng.chance(0.3)) old += "{\"VAR_index\": 2, \"bou";
+    sc.ref("files").set("graph.jsonl", old);
+    sc.set("stale_graph", true);
+  }
   return sc;
 }
 
@@ -50,6 +58,10 @@ void judge(const sim::Json& sc, const RunRecord& rec, sim::RunResult& r) {
     r.stats.set("no_graph", 1);
   } else {
     const std::string& text = git->second;
+    if (sc["stale_graph"].as_bool()) {
+      r.stats.set("stale_graph_file_present", 1);
+      if (text.find("STALE_EXPORT") != std::string::npos && delivered) flag("STALE_CONTENT", cfg, "the export file existed before the run: it still holds the records of the earlier export (" + std::to_string(text.size()) + " bytes, begins: " + text.substr(0, 80) + ")");
+    }
     std::vector<sim::Json> recs;
     size_t p = 0; int lineno = 0;
     bool all_valid = true;
